@@ -415,13 +415,13 @@ void make_items(const Options& o, std::vector<Item>& items)
             if (!(a0 && a1) && muts < 4) return;
         }
         p.keep_refs = (items.size() % 2) == 1;
-        add(p, 2, 3);
+        add(p, 3, 4);
     });
     hx::multisets((int)seq1.size(), 3, [&](const std::vector<int>& idx) {
         Prog p;
         p.threads = {conv(seq1[idx[0]]), conv(seq1[idx[1]]), conv(seq1[idx[2]])};
         if (!has_mut(p)) return;
-        add(p, 2, 3);
+        add(p, 3, 4);
     });
     if (thorough) {
         hx::multisets((int)seq1.size(), 2, [&](const std::vector<int>& idx) {
@@ -429,7 +429,7 @@ void make_items(const Options& o, std::vector<Item>& items)
                 if (s.size() != 2 || al[s[0]].k > ADDT) continue;
                 Prog p;
                 p.threads = {conv(s), conv(seq1[idx[0]]), conv(seq1[idx[1]])};
-                add(p, 2, 2);
+                add(p, 3, 3);
             }
         });
     }
